@@ -201,6 +201,7 @@ static void check_case(vg::Src& s, vh::Ctx& c)
         query(c, second ? *g2 : *g, m, i, acc);
     }
     c.desc = vm::describe(sp) + " queries(node:accessor)=" + hist;
+    c.announce();
     c.canon = vm::describe(sp);
 
     // full sweep: every node, every accessor; order consistency; cache vs no-cache; symmetry
